@@ -367,7 +367,7 @@ func gen(a hx.Args) {
 		}
 		o.emit()
 	}
-	n := a.N(900, 40000)
+	n := a.N(900, 8000)
 	for i := 0; i < n; i++ {
 		switch k := r.Intn(100); {
 		case k < 22:
@@ -385,10 +385,10 @@ func gen(a hx.Args) {
 		}
 	}
 	// a few large cases (three/four byte compact prefixes)
-	for i := 0; i < a.N(2, 40); i++ {
+	for i := 0; i < a.N(2, 8); i++ {
 		genBoundary(r, true)
 	}
-	for i := 0; i < a.N(3, 40); i++ {
+	for i := 0; i < a.N(3, 30); i++ {
 		hx.Emit("wire %d %d %d %d %d", 3+r.Intn(11), hx.Pick(r, []int64{1024, 2048, 4096}), 20+r.Intn(120), r.Intn(30), 1+r.Intn(12))
 	}
 }
